@@ -480,7 +480,19 @@ mutual
       obtain ⟨D5, h5, _⟩ := scoped_block ie buf _ re _ hre hs' ((hc.mono hsub).stack hst) (hsub _ hb)
       refine ⟨(sc.pushForEach v).1.2.2.1 :: (sc.pushForEach v).1.2.1 :: D, ?_, (hc.mono hsub).stack (c1.trans hst), hsub⟩
       simp [foreachStmts, JsStmts.one, scopedStmts, scopedStmt, toAst_reads D sc hc list j hj, h4, h5]
-    | .msg .., _, _, _, _, h, _, _, _ => by simp [toCmd] at h
+    | .msg p id m d bp body, buf, sc, r, D, h, hs, hc, hb => by
+      unfold toCmd at h
+      obtain ⟨rb, hrb, rfl⟩ := msgJoin_some h
+      have hc' : Covers D sc.push := by
+        intro f hf kv hkv
+        simp only [Scope.push, List.mem_cons] at hf
+        rcases hf with rfl | hf
+        · cases hkv
+        · exact hc f hf kv hkv
+      obtain ⟨D', a1, a2, a3⟩ := scoped_parts body buf sc.push rb D hrb (scOk_push hs.2) hc' hb
+      refine ⟨D', a1, ?_, a3⟩
+      intro f hf kv hkv
+      exact a2 f (List.mem_of_mem_tail hf) kv hkv
     | .css .., _, _, _, _, h, _, _, _ => by simp [toCmd] at h
     | .debugger .., _, _, _, _, h, _, _, _ => by simp [toCmd] at h
     | .log .., _, _, _, _, h, _, _, _ => by simp [toCmd] at h
@@ -591,6 +603,36 @@ mutual
           obtain ⟨s1, _, _⟩ := toCmd_scope ae c buf sc r1 h1 hs
           obtain ⟨D2, b1, b2, b3⟩ := scoped_cmds rest buf r1.2 r2 D1 h2 s1 a2 (a3 _ hb)
           exact ⟨D2, by rw [scopedStmts_append, a1]; exact b1, b2, a3.trans b3⟩
+  theorem scoped_parts : ∀ (ps : MsgParts) (buf : Bytes) (sc : Scope) (r : JsStmts × Scope) (D : List Bytes), toParts ae buf ps sc = some r →
+      ScOk sc → Covers D sc → D.contains buf = true → After D r
+    | .nil, buf, sc, r, D, h, hs, hc, hb => by
+      simp only [toParts, Option.some.injEq] at h; subst h
+      exact ⟨D, rfl, hc, Sub.refl D⟩
+    | .text p t rest, buf, sc, r, D, h, hs, hc, hb => by
+      unfold toParts at h
+      obtain ⟨a, b, ha, hb2, rfl⟩ := phJoin_some h
+      simp only [Option.some.injEq] at ha; subst ha
+      obtain ⟨D2, b1, b2, b3⟩ := scoped_parts rest buf sc b D hb2 hs hc hb
+      refine ⟨D2, ?_, b2, b3⟩
+      rw [scopedStmts_append]
+      simp only [scopedStmts_one, scopedStmt, hb, if_true, Option.bind]
+      exact b1
+    | .ph p name body rest, buf, sc, r, D, h, hs, hc, hb => by
+      unfold toParts at h
+      obtain ⟨a, b, ha, hb2, rfl⟩ := phJoin_some h
+      obtain ⟨D1, a1, a2, a3⟩ := scoped_ph body buf sc a D ha hs hc hb
+      obtain ⟨s1, _, _⟩ := toPh_scope ae body buf sc a ha hs
+      obtain ⟨D2, b1, b2, b3⟩ := scoped_parts rest buf a.2 b D1 hb2 s1 a2 (a3 _ hb)
+      exact ⟨D2, by rw [scopedStmts_append, a1]; exact b1, b2, a3.trans b3⟩
+    | .plural .., _, _, _, _, h, _, _, _ => by simp [toParts] at h
+  theorem scoped_ph : ∀ (b : MsgPhBody) (buf : Bytes) (sc : Scope) (r : JsStmts × Scope) (D : List Bytes), toPh ae buf b sc = some r →
+      ScOk sc → Covers D sc → D.contains buf = true → After D r
+    | .htmlTag p t, buf, sc, r, D, h, hs, hc, hb => by
+      simp only [toPh, Option.some.injEq] at h; subst h
+      exact ⟨D, by simp only [scopedStmts_one, scopedStmt, hb, if_true], hc, Sub.refl D⟩
+    | .cmd c, buf, sc, r, D, h, hs, hc, hb => by
+      unfold toPh at h
+      exact scoped_cmd c buf sc r D h hs hc hb
   theorem scoped_cases : ∀ (cs : CaseList) (buf : Bytes) (sc : Scope) (r : JsCases × Scope) (D : List Bytes), toCases ae buf cs sc = some r →
       ScOk sc → Covers D sc → D.contains buf = true → scopedCases D r.1 = true
     | .nil, buf, sc, r, D, h, hs, hc, hb => by
